@@ -325,6 +325,9 @@ def normalise_path(it, a):
     la = V._lit(it, a)
     if la is not None:
         import pathlib; return str(pathlib.PurePosixPath(la))
+    sn = st.norm(S(a))
+    if len(sn.atoms) == 1 and isinstance(sn.atoms[0], Var) and '/' not in st.excl.get(sn.atoms[0].name, ()):
+        return _normalise_raw(it, sn.atoms[0])
     segs, open_tail = st.split(a, '/', -1, 'path-components', max_open=40)
     if open_tail: raise OutsideSubset('Path() of a string with too many components')
     segs = [simp(x) for x in segs]
@@ -341,6 +344,38 @@ def normalise_path(it, a):
     if absolute: out = it.concat(['/', out])
     elif not keep: out = '.'
     return out
+_NF = []
+def normal_form_re():
+    """regex of the strings that pathlib leaves unchanged: [/] comp (/ comp)*  or '/'  -- comp: non-empty, '/'-free, not '.'"""
+    if not _NF:
+        from .sstr import charset, SC
+        notslash = charset([(SC.NEGATE, None), (SC.LITERAL, ord('/'))])
+        comp = z3.Intersect(z3.Plus(notslash), z3.Complement(z3.Re(z3.StringVal('.'))))
+        rel = z3.Concat(comp, z3.Star(z3.Concat(z3.Re(z3.StringVal('/')), comp)))
+        _NF.append(z3.Union(z3.Re(z3.StringVal('/')), rel, z3.Concat(z3.Re(z3.StringVal('/')), rel)))
+    return _NF[0]
+def _normalise_raw(it, v):
+    """Path() of an unrefined variable: exact case split on the simplest ways a string can be non-normalised (one trailing '/', one '//',
+    one '/./'); any other non-normalised shape is outside the model on that path"""
+    st = it.st; NF = normal_form_re(); ex = set(st.excl.get(v.name, ()))
+    n = Var(v.name + '.n'); a = Var(v.name + '.pa'); b = Var(v.name + '.pb')
+    def cat(*xs): return SStr(xs).z()
+    opts = [('normal', [z3.InRe(v.z, NF)]),
+            ('trailing-slash', [v.z == cat(n, '/'), z3.InRe(n.z, NF), n.z != z3.StringVal('/')]),
+            ('double-slash', [v.z == cat(a, '//', b), z3.InRe(cat(a, '/', b), NF), a.z != z3.StringVal('')]),
+            ('dot-component', [v.z == cat(a, '/./', b), z3.InRe(cat(a, '/', b), NF), a.z != z3.StringVal('')])]
+    other = z3.Not(z3.Or(z3.InRe(v.z, NF), z3.InRe(v.z, z3.Concat(NF, z3.Re(z3.StringVal('/')))),
+                         z3.Contains(v.z, z3.StringVal('//')), z3.Contains(v.z, z3.StringVal('/./'))))
+    opts.append(('other', [other]))
+    k = st.choose(opts, 'Path(raw)')
+    for x in (n, a, b): st.excl[x.name] = set(ex)
+    if k == 0: return SStr([v])
+    if k == 1:
+        del st.pc[-3]; st.do_subst(v, (n, '/')); return SStr([n])
+    if k in (2, 3):
+        sep = '//' if k == 2 else '/./'
+        del st.pc[-3]; st.do_subst(v, (a, sep, b)); return it.concat([SStr([a]), '/', SStr([b])])
+    raise OutsideSubset('Path() of a non-normalised string of another shape (several defects, leading "//" or "./")')
 class PathClass:
     def pyvc_call(self, it, args, kwargs):
         if len(args) != 1: raise OutsideSubset('Path() with several parts')
